@@ -294,6 +294,11 @@ func findReference(msaIn io.Reader, referenceID string) (fastaio.EncodedFastaRec
 	for s.Scan() {
 		line = s.Bytes()
 
+		// blank lines are not part of any record
+		if len(line) == 0 {
+			continue
+		}
+
 		if first {
 
 			if line[0] != '>' {
@@ -301,6 +306,9 @@ func findReference(msaIn io.Reader, referenceID string) (fastaio.EncodedFastaRec
 			}
 
 			description = string(line[1:])
+			if len(strings.Fields(description)) == 0 {
+				return fastaio.EncodedFastaRecord{}, errors.New("badly formatted fasta file: header line without an ID")
+			}
 			id = strings.Fields(description)[0]
 
 			if id == referenceID {
@@ -324,6 +332,9 @@ func findReference(msaIn io.Reader, referenceID string) (fastaio.EncodedFastaRec
 
 			counter++
 			description = string(line[1:])
+			if len(strings.Fields(description)) == 0 {
+				return fastaio.EncodedFastaRecord{}, errors.New("badly formatted fasta file: header line without an ID")
+			}
 			id = strings.Fields(description)[0]
 			seqBuffer = make([]byte, 0)
 
